@@ -310,6 +310,24 @@ fn main() {
         t
     });
 
+    // S7: coefficients written as 64-bit words drawn from {0, 1, 12345678, 10^19 - 1, 2^64 - 1}, EVERY combination
+    // over one to six words (zero words in the middle, small words next to full ones), at every scale that moves the
+    // value across the 64- and 128-bit limits: fixed-size word buffers and word-wise division are decided here
+    let sw = sparse_words(tier.pick(6, 7), &[0, 1, 12_345_678, 9_999_999_999_999_999_999, u64::MAX]);
+    run.bound("S7_sparse_word_coefficients", sw.len());
+    run.par("S7 sparse-word coefficients", (sw.len() + 63) / 64, |blk| {
+        let mut t = Tally::default();
+        for n in sw[blk * 64..((blk + 1) * 64).min(sw.len())].iter() {
+            let l = ndigits(n) as i128;
+            for s in [0i128, 1, 3, 18, 19, 20, 38, 39, l - 39, l - 20, l - 19, l - 1, l, -1] {
+                for sign in [1, -1] {
+                    check_all(&run, &Dec { n: n * sign, s }, &mut t);
+                }
+            }
+        }
+        t
+    });
+
     // S4: zeros with scales; constructors
     run.seq("S4 zeros and constructors", || {
         let mut t = Tally::default();
